@@ -30,7 +30,7 @@ class C04(Spec):
     groups = ["vnet"]
     title = "Requests are anonymous, well-formed https GETs that content cannot tamper with"
     raw_compare = False
-    oracle_filter = {"request_shape", "no_plaintext_connection", "requests_equal_model", "well_formed_result"}
+    oracle_filter = {"request_shape", "accept_known", "no_plaintext_connection", "requests_equal_model", "well_formed_result"}
     rule = ("URLs fetched through client.FetchURL / FetchUnknown against the simulator, which records every byte of every connection "
             "and counts connections to a plaintext canary port: hostile paths and queries (percent-encoded CR/LF, spaces, quotes, "
             "'..', very long), userinfo, explicit ports, fragments, IPv6-literal and other hosts that are not dialled, http:, gopher: "
